@@ -44,6 +44,9 @@ def gen(rng, tier):
         c = core.case_from_struct(s, Weight=core.weights(i))
         if i % 3 == 2:
             c["Restage"] = 1 + i // 3
+        if i % 5 == 0 and i % 3 != 2:      # (not together with the restaging above, which renumbers the shared slice nodes)
+            # what solve -p writes in the background is this structure while process.Solve runs: solving must leave it alone
+            c.update(Solve=True, KeepPre=True, Error="1e-2")
         if i % 4 == 1:
             # the same definition in another valid layout: in particular links and supports whose terms are listed
             # in another order ({dy dx}, {rz dx dy}): the braces hold a set
@@ -61,6 +64,14 @@ def gen(rng, tier):
 
 def oracle(c, o):
     fails = O.c16_structure(o, o["Pre"][0])
+    ps = o.get("PreSolved")
+    if ps is not None and not fails:
+        if ps.get("Panic"):
+            return ["looking at the preprocessed structure after solving panicked: " + ps["Panic"][:200]]
+        if ps != o["Pre"][-1]:
+            a, b = [x["ID"] for x in o["Pre"][-1]["Bars"]], [x["ID"] for x in ps["Bars"]]
+            return ["process.Solve changed the preprocessed structure it was given (%s): the background writer of solve -p is writing that structure at the same time" % (
+                "bars in the order %s before, %s after" % (a[:6], b[:6]) if a != b else "numbers or nodal loads differ")]
     st = o.get("Restaged")
     if st and not fails:
         # a construction stage: the same sliced bars but one, numbered again as a structure of their own
